@@ -25,7 +25,7 @@ BOUNDS = {
 }
 # cut kinds that must be present by construction (counted, not assumed)
 MUST_KINDS = ("in_char", "cr_lf", "between_lines", "before_blank", "in_line")
-BATCH = 1500  # streams per monitor run
+BATCH_PAIRS = 400_000  # (stream, chunking) pairs per monitor run
 
 
 def consts(b: dict, with_streams: bool) -> str:
@@ -104,8 +104,15 @@ def text_of(bs: list[int]) -> str:
 
 def judge(chk: Check, traces: list[dict], label: str) -> None:
     by_id = {t["id"]: t for t in traces}
-    for lo in range(0, len(traces), BATCH):
-        part = traces[lo : lo + BATCH]
+    batches: list[list[dict]] = [[]]
+    size = 0
+    for t in traces:
+        if batches[-1] and size + len(t["chunkings"]) > BATCH_PAIRS:
+            batches.append([])
+            size = 0
+        batches[-1].append(t)
+        size += len(t["chunkings"])
+    for lo, part in enumerate(batches):
         d = chk.scratch.sub("str")
         tf = d / "traces.ndjson"
         with tf.open("w") as f:
@@ -138,18 +145,17 @@ def judge(chk: Check, traces: list[dict], label: str) -> None:
             if v["commentOnly"]:
                 key = "comment_only_block_streams_delivering_empty_event" if v["commentOnlyDelivered"] else "comment_only_block_streams_delivering_nothing"
                 chk.cov[key] = chk.cov.get(key, 0) + 1
-            for fl in v["fails"]:
-                kinds = sorted(fl["kinds"])
+            for fl in (f for per_helper in v["fails"] for f in per_helper):
                 loc: dict[str, Any] = {"helper": fl["dec"], "relative_to": fl["rel"], "error": fl["err"]}
-                if fl["rel"] == "unsplit" or fl["clause"] == "C18.bytes_concat":
-                    loc["cut_kinds"] = kinds
+                if fl["rel"] == "unsplit":
+                    loc["cut_kinds"] = sorted(fl["kinds"])
                 else:
                     loc["differs_in"] = fl["field"]
                 scen = {"mode": t["mode"], "bytes": t["bytes"], "text": text_of(t["bytes"]), "cuts": fl["cuts"], "helper": fl["dec"]}
                 dd = next(x for x in t["dec"] if x["name"] == fl["dec"])
-                r0 = dd["outs"][dd["idx"][0] - 1]
-                ri = dd["outs"][dd["idx"][t["chunkings"].index(fl["cuts"])] - 1]
-                chk.fail(fl["clause"], loc, scen, f"stream {text_of(t['bytes'])!r} cuts {fl['cuts']}: unsplit -> {show(r0)} ; this chunking -> {show(ri)}")
+                got = dd["outs"][dd["idx"][t["chunkings"].index(fl["cuts"])] - 1]
+                ref = "the unsplit run" if fl["rel"] == "unsplit" else "the whole-stream meaning (StreamCore.tla)"
+                chk.fail(fl["clause"], loc, scen, f"{fl['dec']} on {text_of(t['bytes'])!r} cut at {fl['cuts']} yielded {show(got)}; {ref} gives {show({'items': fl['exp'], 'err': 'none'})}")
     if traces:
         t = traces[len(traces) // 2]
         chk.sample({"stream": text_of(t["bytes"]), "mode": t["mode"], "bytes": t["bytes"], "chunkings": len(t["chunkings"]), "example_chunking": t["chunkings"][-1], "observed": {d["name"]: {"distinct_outputs": len(d["outs"]), "unsplit": show(d["outs"][d["idx"][0] - 1])} for d in t["dec"]}})
@@ -171,7 +177,7 @@ def run(chk: Check) -> None:
     b = BOUNDS[chk.tier]
     chk.cov["rule"] = (
         f"streams from the grammar of specs/StreamFamily.tla (Tier={b['tier']}: SSE 1-3 blocks x block shapes x payloads incl. empty, "
-        f"2/3/4-byte characters, trailing blank x LF/CRLF{'/alternating' if b['tier'] > 1 else ''} x last block closed / line-terminated / cut; NDJSON 1-3 records x LF/CRLF x "
+        f"{'2/3' if b['tier'] == 1 else '2/3/4'}-byte characters, trailing blank x LF/CRLF{'/alternating' if b['tier'] > 1 else ''} x last block closed / line-terminated / cut; NDJSON 1-3 records x LF/CRLF x "
         f"blank line between x last record terminated or not); chunkings: every subset of cut points for streams <= {b['full']} bytes, "
         f"every chunking with <= {b['cuts']} cuts beyond; each pair is (i) an initial state of the TLC design check and (ii) replayed on the "
         "real helpers; non-trivial = (stream, chunking) pair with at least one cut strictly inside an event / record "
